@@ -186,7 +186,7 @@ def run(tier, cmd):
                 'ControllerNumber predicates over 0..127, constant table, and the sibling cross-check dispatch set = predicate true-set',
                 cmd, trusted_base=TRUSTED, assumptions=['messages satisfy the ShortMessage contract'],
                 explanation='')
-    Fs = load_configs(chk, ['K1'] + (['K2'] if tier == 'thorough' else []), required=('K1',))
+    Fs = load_configs(chk, ['K1', 'K2'], required=('K1',))
     for cfg, F in sorted(Fs.items()):
         n = 0
         for which in ('cc14', 'pn', 'polling'):
